@@ -9,6 +9,8 @@ from sa import rules_extra as RX
 from sa import effects as EFF
 from sa import rules_order as ROR
 
+from sa import rules_r12 as R12
+
 
 def run(ctx, repo):
     ctx.explanation = (
@@ -41,6 +43,7 @@ def run(ctx, repo):
     ctx.call(RX.r_timestamp_exact, repo)
     ctx.call(RO.r_option_normalised, repo)
 
+    ctx.call(R12.r_class_state_writers_offline, repo)
 
 if __name__ == '__main__':
     sys.exit(report.main('C16', 'other', run))
